@@ -10,7 +10,7 @@ RULE = ("word lists with mixed case, prefixes/substrings of each other, words ov
         "non-trivial = a distinct line containing a listed word")
 
 WORDLISTS = [["sea", "seattle"], ["seattle", "sea"], ["Intentionet", "net"], ["router", "out"], ["ZooKeeper", "zoo", "keeper"], ["lab", "LAB-x", "x_y"], ["kitchen", "sink"], ["password"], ["ip"],
-             ["sunnyvale", "sunny", "vale", "y"], ["Kay", "say"]]
+             ["sunnyvale", "sunny", "vale", "y"], ["Kay", "say"], ["pass", "vlan", "switch"], ["port", "net"]]
 RESERVED_USER = [None, ["zookeeper"], ["Seattle-core"], ["lab_sw-01", "kayak"]]
 
 
@@ -27,7 +27,7 @@ def word_lines(rng, words, n):
         items = []
         for _ in range(rng.randrange(1, 5)):
             w = rng.choice(words)
-            k = rng.randrange(7)
+            k = rng.randrange(8)
             if k == 0:
                 tok = w
             elif k == 1:
@@ -40,6 +40,10 @@ def word_lines(rng, words, n):
                 tok = w + w
             elif k == 5:
                 tok = rng.choice(linegen.ORDINARY + ["search", "description", "interface", "zookeeper", "kayak", "Seattle-core"])
+            elif k == 7:
+                # a reserved word that contains the listed word, with punctuation glued to it: no longer exactly a reserved word
+                cands = sorted(r for r in RESERVED if w.lower() in r)
+                tok = (rng.choice(cands) if cands else w) + rng.choice([";", ";;", ",", ")", ":", "."])
             else:
                 tok = w[: max(1, len(w) - 1)]           # a proper prefix of a listed word: not listed itself
             items.append(tok)
